@@ -269,7 +269,25 @@ def _toplevel_listof_size_violated(M, scn, op, ev):
     return e is not None and "?" not in e[:2] and not ((e[0] or 0) <= len(v) and (e[1] is None or len(v) <= e[1]))
 
 
+def _real_subnormal_any(M, scn, op, ev):
+    """the session value, a built value or the value a decoder reported contains a subnormal REAL"""
+    ty = {"k": "REF", "n": scn["ty"]}
+    cands = [op_value(scn, op)]
+    if isinstance(ev, dict) and ev.get("wf") and "val" in ev:
+        cands.append(ev["val"])
+    for o in scn["plan"]:
+        pass
+    for v in cands:
+        try:
+            if any(_real_subnormal(t, x) for t, x in leaves(M, ty, v)):
+                return True
+        except Exception:
+            pass
+    return False
+
+
 PREDS = {
+    "real_subnormal_any": _real_subnormal_any,
     "int_ulong32_above": any_leaf(_int_ulong32_above),
     "toplevel_listof_size_violated": _toplevel_listof_size_violated,
     "bxer_trailing_lf": _bxer_trailing_lf,
